@@ -40,6 +40,53 @@ ssize_t vf_write(int fd, const void *buf, size_t n)
 	return write(fd, buf, k);
 }
 
+/* writev / pwrite: one script outcome per call, like write */
+#include <sys/uio.h>
+static int vf_next_outcome(int fd, const void *buf, size_t n, off_t off)
+{
+	if (vf_write_ncalls < VF_MAXCALLS) {
+		vf_write_calls[vf_write_ncalls].buf = buf;
+		vf_write_calls[vf_write_ncalls].n = n;
+		vf_write_calls[vf_write_ncalls].off = off == (off_t)-1 ? lseek(fd, 0, SEEK_CUR) : off;
+		vf_write_ncalls++;
+	}
+	int o = VF_W_FULL;
+	if (vf_write_script_pos < vf_write_script_len)
+		o = vf_write_script[vf_write_script_pos++];
+	if (o != VF_W_FULL) vf_write_faults_fired++;
+	return o;
+}
+ssize_t vf_writev(int fd, const struct iovec *iov, int cnt)
+{
+	if (!vf_write_armed)
+		return writev(fd, iov, cnt);
+	size_t total = 0; for (int i = 0; i < cnt; i++) total += iov[i].iov_len;
+	int o = vf_next_outcome(fd, cnt ? iov[0].iov_base : NULL, total, (off_t)-1);
+	if (o == VF_W_FULL) return writev(fd, iov, cnt);
+	if (o == VF_W_EINTR) { errno = EINTR; return -1; }
+	if (o == VF_W_ZERO) { errno = 0; return 0; }
+	if (o <= VF_W_ERR) { errno = (o == VF_W_ERR) ? EIO : ENOSPC; return -1; }
+	size_t k = (size_t)o; if (k > total) k = total;
+	struct iovec tmp[64]; int m = 0; size_t left = k;
+	for (int i = 0; i < cnt && i < 64 && left; i++) {
+		tmp[m] = iov[i]; if (tmp[m].iov_len > left) tmp[m].iov_len = left;
+		left -= tmp[m].iov_len; m++;
+	}
+	return writev(fd, tmp, m);
+}
+ssize_t vf_pwrite(int fd, const void *buf, size_t n, off_t off)
+{
+	if (!vf_write_armed)
+		return pwrite(fd, buf, n, off);
+	int o = vf_next_outcome(fd, buf, n, off);
+	if (o == VF_W_FULL) return pwrite(fd, buf, n, off);
+	if (o == VF_W_EINTR) { errno = EINTR; return -1; }
+	if (o == VF_W_ZERO) { errno = 0; return 0; }
+	if (o <= VF_W_ERR) { errno = (o == VF_W_ERR) ? EIO : ENOSPC; return -1; }
+	size_t k = (size_t)o; if (k > n) k = n;
+	return pwrite(fd, buf, k, off);
+}
+
 /* ---- mmap: exact-size heap copy ---- */
 long vf_mmap_live = 0, vf_mmap_total = 0;
 void *vf_mmap(void *addr, size_t len, int prot, int flags, int fd, off_t off)
